@@ -2407,13 +2407,14 @@ def preprocess_file(
             # spare the expensive regex-substitution in case we do not need it at all
             if def_tmp not in line:
                 continue
-            def_regex = def_regexes.get(def_tmp)
+            # A name can be #undef'd and defined again with another body
+            def_regex = def_regexes.get((def_tmp, value))
             if def_regex is None:
                 if isinstance(value, tuple):
                     def_regex = expand_func_macro(def_tmp, value)
                 else:
                     def_regex = re.compile(rf"\b{def_tmp}\b")
-                def_regexes[def_tmp] = def_regex
+                def_regexes[(def_tmp, value)] = def_regex
 
             if isinstance(def_regex, tuple):
                 def_regex, value = def_regex
